@@ -176,6 +176,9 @@ impl Agg {
 }
 
 pub fn workers() -> usize {
+    if crate::simenv::exclusive() {
+        return 1;
+    }
     std::env::var("VERIF_WORKERS")
         .ok()
         .and_then(|s| s.parse().ok())
@@ -430,6 +433,24 @@ pub fn check(prop: &dyn Property, ctx: &Ctx) -> CheckOutcome {
     }
 
     let mut agg = run_streams(prop, ctx, 0, budget, deadline);
+    let mut exclusive_note: Option<String> = None;
+    let orphans = solstat::verif_shim::orphan_calls();
+    if orphans > 0 {
+        // solstat touched the file system from threads the simulator did not start: their calls went
+        // past the simulated world. Results of the parallel pass are meaningless; run again, one
+        // simulated run at a time, with the run's Env as the process-wide fallback.
+        let reduced = (budget / 8).max(200).min(budget);
+        say!(
+            "[{}] note: {} file-system calls came from threads started by solstat itself; re-running {} streams in exclusive mode (one run at a time, process-wide Env)",
+            id, orphans, reduced
+        );
+        crate::simenv::EXCLUSIVE.store(true, std::sync::atomic::Ordering::SeqCst);
+        agg = run_streams(prop, ctx, 0, reduced, deadline);
+        exclusive_note = Some(format!(
+            "solstat starts threads of its own ({} file-system calls without an Env in the parallel pass); the reported figures are from {} streams run one at a time with a process-wide Env",
+            orphans, reduced
+        ));
+    }
     let mut engines = vec!["simproc".to_string()];
     let bin_budget = crate::simbin::budget(id, ctx.tier == Tier::Thorough);
     match crate::simbin::bin_path() {
@@ -485,6 +506,8 @@ pub fn check(prop: &dyn Property, ctx: &Ctx) -> CheckOutcome {
             agg.harness_errors.push(e);
         }
     }
+    // everything from here on (prelude, minimisation) runs one scenario at a time on this thread
+    crate::simenv::EXCLUSIVE.store(true, std::sync::atomic::Ordering::SeqCst);
     let mut exhaustive = false;
     {
         let mut screen = Screen::new();
@@ -636,6 +659,9 @@ pub fn check(prop: &dyn Property, ctx: &Ctx) -> CheckOutcome {
     coverage.insert("components".into(), Value::Object(comps));
     coverage.insert("screened_out".into(), json!(agg.screened_out));
     coverage.insert("screened_in".into(), json!(agg.screened_in));
+    if let Some(n) = &exclusive_note {
+        coverage.insert("exclusive_mode".into(), json!(n));
+    }
     coverage.insert("determinism_slice_ok".into(), json!(determinism_ok));
     coverage.insert("determinism_slice_streams".into(), json!(slice));
     coverage.insert("known_findings_hit".into(), json!(known_lines.len()));
@@ -682,7 +708,7 @@ pub fn check(prop: &dyn Property, ctx: &Ctx) -> CheckOutcome {
     if new_violations > 0 {
         return CheckOutcome { exit_code: 1 };
     }
-    if !determinism_ok {
+    if !determinism_ok && exclusive_note.is_none() {
         return CheckOutcome { exit_code: 2 };
     }
     if !agg.harness_errors.is_empty() {
@@ -729,6 +755,7 @@ pub fn confirm_in_fresh_process(path: &str, id: &str) -> bool {
 
 /// `sim replay <file>`: exit 1 + VIOLATION line if the stored scenario still violates its clause.
 pub fn replay_file(props: &[&dyn Property], ctx: &Ctx, path: &str) -> i32 {
+    crate::simenv::EXCLUSIVE.store(true, std::sync::atomic::Ordering::SeqCst);
     let text = match std::fs::read_to_string(path) {
         Ok(t) => t,
         Err(e) => {
